@@ -74,7 +74,12 @@ pub fn run_case(d: &RDoc, wseed: u64, style: XrefStyle, objstm: bool, disabled: 
 
 /// Turn writer features off one at a time, then drop objects, while the failure persists.
 pub fn minimise(d: &RDoc, wseed: u64, style: XrefStyle, objstm: bool) -> (RDoc, BTreeSet<String>, CaseResult) {
-    let mut disabled = BTreeSet::new();
+    minimise_from(d, wseed, style, objstm, BTreeSet::new())
+}
+
+/// 1-minimal set of writer features (and objects) needed for the failure, starting with `disabled` switched off
+pub fn minimise_from(d: &RDoc, wseed: u64, style: XrefStyle, objstm: bool, disabled: BTreeSet<String>) -> (RDoc, BTreeSet<String>, CaseResult) {
+    let mut disabled = disabled;
     let mut cur = run_case(d, wseed, style, objstm, &disabled);
     let mut doc = d.clone();
     for _round in 0..2 {
@@ -143,7 +148,23 @@ pub fn finding(d: &RDoc, wseed: u64, style: XrefStyle, objstm: bool) -> Finding 
             break;
         }
     }
-    let (md, disabled, res) = attributed.unwrap_or_else(|| minimise(d, wseed, style, objstm));
+    // several still-open known findings can be at work in one file: switch all their features off together.
+    // If the file then loads correctly the failure belongs to them; if it still fails, this is a failure of its
+    // own and is minimised with those features off, so that a known finding can never stand in for it.
+    let all: BTreeSet<String> = known_has_features().into_iter().collect();
+    let independent = if attributed.is_none() && !all.is_empty() {
+        if run_case(d, wseed, style, objstm, &all).diffs.is_empty() {
+            let mut res = run_case(d, wseed, style, objstm, &BTreeSet::new());
+            res.used.retain(|k, _| all.contains(k));
+            attributed = Some((d.clone(), BTreeSet::new(), res));
+            false
+        } else {
+            true
+        }
+    } else {
+        false
+    };
+    let (md, disabled, res) = attributed.unwrap_or_else(|| minimise_from(d, wseed, style, objstm, if independent { all.clone() } else { BTreeSet::new() }));
     let h = History::from_doc(&md);
     let (w, _) = write_history(wseed, &disabled, &h, style, objstm);
     Finding {
@@ -158,7 +179,7 @@ pub fn finding(d: &RDoc, wseed: u64, style: XrefStyle, objstm: bool) -> Finding 
 }
 
 pub fn run(cfg: &RunCfg) -> (PropMeta, ShardOut, Map<String, Value>) {
-    let n = cfg.n(4000, 160_000);
+    let n = cfg.n(4000, 60_000);
     let per = (n as usize + cfg.threads - 1) / cfg.threads;
     let out = shards(cfg.threads, |shard| {
         let mut out = ShardOut::default();
@@ -170,7 +191,9 @@ pub fn run(cfg: &RunCfg) -> (PropMeta, ShardOut, Map<String, Value>) {
             let style = if r.bool() { XrefStyle::Table } else { XrefStyle::Stream };
             let objstm = r.chance(3, 4);
             let wseed = r.next_u64();
+            let t_case = std::time::Instant::now();
             let res = run_case(&d, wseed, style, objstm, &none);
+            if std::env::var("VH_SLOW").is_ok() && t_case.elapsed().as_secs_f64() > 0.5 { eprintln!("SLOW run_case shard {} i {} {:.1}s objects {} bytes {}", shard, i, t_case.elapsed().as_secs_f64(), d.objects.len(), res.bytes.len()); }
             out.evaluations += 1;
             out.digests.insert(crate::prng::fnv_bytes(&res.bytes));
             for (f, c) in &res.used {
@@ -179,7 +202,9 @@ pub fn run(cfg: &RunCfg) -> (PropMeta, ShardOut, Map<String, Value>) {
             }
             out.count(if style == XrefStyle::Table { "files_xref_table" } else { "files_xref_stream" });
             if !res.diffs.is_empty() {
+                let t_f = std::time::Instant::now();
                 out.finding(finding(&d, wseed, style, objstm));
+                if std::env::var("VH_SLOW").is_ok() && t_f.elapsed().as_secs_f64() > 0.5 { eprintln!("SLOW finding shard {} i {} {:.1}s objects {}", shard, i, t_f.elapsed().as_secs_f64(), d.objects.len()); }
             } else {
                 out.count("files_loaded_equal");
             }
